@@ -41,6 +41,8 @@ const POOL: &[&str] = &[
     // same bucket, masks that differ in exactly one bit the existing pairs do not cover
     // empty patterns (match everything) next to token-less partners with the same mask
     "*$image", "$image", "/a*b$image", "/a$image", "a^$image", "/a.b|$image",
+    // redirect-rule rules of one bucket and one mask that name different resources / priorities
+    "adv$redirect-rule=a", "advice$redirect-rule=b:5",
     // removeparam rules that differ only in the case of the parameter name (names are compared
     // exactly), or only in the name
     "*$removeparam=Q", "*$removeparam=r", "adv$removeparam=Q",
